@@ -350,7 +350,7 @@ PROPS["C09"] = dict(
     units=[dict(template="units/oneway.rs", slice=["*"], ignore_clauses={"deliver_local": [r"\.mtime == clamp0"], "deliver_pull": [r"\.mtime == clamp0"]})],
     twins=[dict(name="oneway_crashes", repo_fn="src/bin/copia/transfer.rs transfer_file_to_remote (push) + incremental.rs run_local/run_remote", quick=3, thorough=120, needs_cli=True,
                 contract="`copia sync -r` in all three directions on the real binary, killed right before EVERY one of its file-system / pipe write calls (ptrace supervisor; the ssh stand-in keeps running after its sender died): live destination paths hold complete old or complete new bytes, files outside the plan are unchanged, the re-run exits 0 and equals an uninterrupted run; plus a remote end that fails mid-stream",
-                bounded="PUSH is decided only here: the deciding step is the remote shell command `cat > tmp && [ size ] && mv`, which is not Rust code and has no contract. Bound: ONE tree (5 files, 0 B .. 700 000 B = 3 transfer chunks, one pre-existing older version, one unrelated file), -j 1, every kill point of that run (quick: every point up to 40 then every 3rd; thorough: all, and again with --delete), remote = local sh through an ssh stand-in")],
+                bounded="PUSH is decided only here: the deciding step is the remote shell command `cat > tmp && [ size ] && mv`, which is not Rust code and has no contract. Bound: ONE tree (5 files, 0 B .. 700 000 B = 3 transfer chunks, one pre-existing older version, one unrelated file), -j 1, every kill point of that run (quick: every point up to 40 then every 3rd; thorough: all, and again with --delete), plus a push whose delete list (1500 stale files) is longer than a pipe buffer, every kill point; remote = local sh through an ssh stand-in")],
     fallback_searches=["oneway"],
     clauses={
         "tmp_path": "result == dst ++ '.copia-tmp': a reserved staging name, different from dst",
